@@ -36,6 +36,8 @@ LSIGS: Dict[str, str] = {
     "own_fee": _c("txn Fee", "int 1000", "<=", "assert"),
     "abs1_fee": _c("gtxn 1 Fee", "int 1000", "<=", "assert"),
     "rel+1_fee": _c("int 1", "txn GroupIndex", "+", "gtxns Fee", "int 1000", "<=", "assert"),
+    # a bound the tool cannot evaluate on the member's OWN fee: says nothing about any other member
+    "own_fee_minfee": _c("txn Fee", "global MinTxnFee", "<=", "assert"),
     "own_close": _c("txn CloseRemainderTo", Z, "==", "assert"),
     "abs0_close": _c("gtxn 0 CloseRemainderTo", Z, "==", "assert"),
     "own_rekey_lit": _c(f"addr {LIT1}", "txn RekeyTo", "==", "assert"),
